@@ -4,10 +4,34 @@ use crate::ev::Ctx;
 use serde_json::Value;
 
 pub mod c02;
+pub mod c08;
+pub mod c09;
 pub mod c15;
 pub mod c17;
+pub mod c20;
+pub mod common;
+
+type RunFn = fn(&mut Ctx);
+type ReplayFn = fn(&mut Ctx, &Value);
+
+pub const TABLE: &[(&str, RunFn, ReplayFn)] = &[
+    ("C02", c02::run, c02::replay),
+    ("C08", c08::run, c08::replay),
+    ("C09", c09::run, c09::replay),
+    ("C15", c15::run, c15::replay),
+    ("C17", c17::run, c17::replay),
+    ("C20", c20::run, c20::replay),
+];
+
+fn lookup(id: &str) -> (RunFn, ReplayFn) {
+    match TABLE.iter().find(|(p, _, _)| *p == id) {
+        Some((_, r, p)) => (*r, *p),
+        None => crate::ev::inconclusive(&format!("no check registered for {id}")),
+    }
+}
 
 pub fn run(ctx: &mut Ctx) {
+    let (run, replay) = lookup(&ctx.property.clone());
     // regression tier: committed shrunk failures and golden inputs bypass the generators
     let replays = crate::ev::committed_replays(&ctx.property);
     let n = replays.len();
@@ -15,21 +39,12 @@ pub fn run(ctx: &mut Ctx) {
         replay(ctx, &v);
     }
     ctx.extra.insert("replayed_regression_inputs".into(), serde_json::json!(n));
-    match ctx.property.as_str() {
-        "C02" => c02::run(ctx),
-        "C15" => c15::run(ctx),
-        "C17" => c17::run(ctx),
-        other => crate::ev::inconclusive(&format!("no check registered for {other}")),
-    }
+    run(ctx);
 }
 
 pub fn replay(ctx: &mut Ctx, v: &Value) {
-    match ctx.property.as_str() {
-        "C02" => c02::replay(ctx, v),
-        "C15" => c15::replay(ctx, v),
-        "C17" => c17::replay(ctx, v),
-        other => crate::ev::inconclusive(&format!("no replay for {other}")),
-    }
+    let (_, replay) = lookup(&ctx.property.clone());
+    replay(ctx, v);
 }
 
 pub fn s(v: &Value, key: &str) -> String {
